@@ -442,6 +442,32 @@ func (vc *VC) contractMods(con *Contract, mods map[string]bool) bool {
 		return con.Flags["pure"] == ""
 	}
 	for _, a := range con.Assigns {
+		if id, ok := a.(*SIdent); ok && id.Name == "callercaptures" {
+			// the cell kinds of the captured variables of the function under verification
+			if vc.top != nil && vc.top.fn != nil {
+				for _, b := range vc.top.fn.Blocks {
+					for _, ins := range b.Instrs {
+						if mc, ok := ins.(*ssa.MakeClosure); ok {
+							cfn, _ := mc.Fn.(*ssa.Function)
+							for k, bv := range mc.Bindings {
+								al, ok := bv.(*ssa.Alloc)
+								if !ok || cfn == nil || k >= len(cfn.FreeVars) {
+									continue
+								}
+								if refs := cfn.FreeVars[k].Referrers(); refs != nil {
+									for _, r := range *refs {
+										if st, isStore := r.(*ssa.Store); isStore && st.Addr == cfn.FreeVars[k] {
+											vc.memNamesOf(al.Type().Underlying().(*types.Pointer).Elem(), mods)
+										}
+									}
+								}
+							}
+						}
+					}
+				}
+			}
+			continue
+		}
 		names, ok := vc.eng.assignsMemNames(vc, con, a)
 		if !ok {
 			return true
@@ -1137,7 +1163,9 @@ func (vc *VC) callAsserts(fr *Frame, st *State, c *ssa.CallCommon, args []Term, 
 			env.names[fmt.Sprintf("arg%d", i)] = Bound{args[i+off], p.Type()}
 		}
 		vc.sameBlockOK = true
+		vc.callSiteFrame = fr
 		g := vc.specBool(env, ca.Clause)
+		vc.callSiteFrame = nil
 		vc.sameBlockOK = false
 		vc.addObl(fr, st, "callsite", name+"/"+ca.Clause.Label, g, ca.Clause, pos)
 		vc.callAssertHit[ca] = true
